@@ -1367,6 +1367,7 @@ class LangServer:
                 if ast_old is not None:
                     for key in ast_old.global_dict:
                         self.obj_tree.pop(key, None)
+                    self._release_included_files(ast_old)
                 self._forget_file_pp_defs(file_obj)
                 # Forget the file itself, otherwise it keeps answering
                 # documentSymbol and appears in references/rename results
@@ -1439,6 +1440,7 @@ class LangServer:
         if ast_old is not None:
             for key in ast_old.global_dict:
                 self.obj_tree.pop(key, None)
+            self._release_included_files(ast_old)
         # Add new file to workspace
         file_obj.ast = ast_new
         if filepath not in self.workspace:
@@ -1451,6 +1453,17 @@ class LangServer:
             self.link_version = (self.link_version + 1) % 1000
             ast_new.resolve_links(self.obj_tree, self.link_version)
         return True, None
+
+    @staticmethod
+    def _release_included_files(ast_old: FortranAST) -> None:
+        """Give the files INCLUDEd by a discarded syntax tree their own top-level
+        scope back. resolve_includes splices it into the new tree again if the
+        INCLUDE statement is still present."""
+        for inc in ast_old.include_statements:
+            if (inc.file is None) or (inc.file.ast is None):
+                continue
+            if inc.file.ast.inc_scope is not None:
+                inc.file.ast.none_scope = inc.file.ast.inc_scope
 
     def _forget_file_pp_defs(self, file_obj: FortranFile) -> None:
         """Remove the preprocessor definitions previously taken from ``file_obj``"""
